@@ -65,7 +65,7 @@ HANDLERS = {
 # the same handler entries are also necessary conditions of other properties (the table is keyed by function)
 HANDLERS['C03'] = [HANDLERS['C06'][0], HANDLERS['C02'][2]]
 HANDLERS['C02'] = HANDLERS['C02'] + [HANDLERS['C12'][1]]   # commit_prove_state: the kept matched-blocks record (F42)
-HANDLERS['C04'] = [HANDLERS['C01'][0], HANDLERS['C12'][1]]
+HANDLERS['C04'] = [HANDLERS['C01'][0], HANDLERS['C12'][1], HANDLERS['C02'][0]]   # SendBlocksProof: missing matched block (F54)
 HANDLERS['C06'] = HANDLERS['C06'] + [HANDLERS['C02'][2]]
 CENSUS.setdefault('C06', []).append('~+Peers::add_block')
 HANDLERS['C12'] = HANDLERS['C12'] + [HANDLERS['C01'][0]]
